@@ -8,6 +8,7 @@ mod exec;
 mod c01;
 mod c18;
 mod c16;
+mod c19;
 
 use common::Case;
 use std::fs;
@@ -19,6 +20,7 @@ fn header(prop: &str) -> &'static str {
         "C01" | "LAZY" => "From TSG Require Import Model.Run.\n",
         "C18" => "From TSG Require Import Model.ParseErr.\n",
         "C16" => "From TSG Require Import Model.Globals.\n",
+        "C19" => "From TSG Require Import Model.Cli.\n",
         _ => "",
     }
 }
@@ -62,6 +64,7 @@ fn main() {
                 "LAZY" => c01::gen_mode(&mut rng, n, true),
                 "C18" => c18::gen(&mut rng, n),
                 "C16" => c16::gen(&mut rng, n),
+                "C19" => c19::gen(&mut rng, n),
                 _ => { eprintln!("unknown property {}", prop); std::process::exit(2) }
             };
             write_cases(&prop, &cases, shards, &out);
@@ -75,6 +78,7 @@ fn main() {
                 "LAZY" => c01::replay_mode(&j["case"], true),
                 "C18" => c18::replay(&j["case"]),
                 "C16" => c16::replay(&j["case"]),
+                "C19" => c19::replay(&j["case"]),
                 _ => { eprintln!("unknown property {}", prop); std::process::exit(2) }
             };
             write_cases(&prop, &[case], 1, &out);
